@@ -622,6 +622,30 @@ def classify_c06(case, detail):
     return None
 
 
+def _released_view(data):
+    view = memoryview(data)
+    view.release()
+    return view
+
+
+def _closed_mmap(data):
+    import mmap
+    m = mmap.mmap(-1, len(data))
+    m.write(data)
+    m.close()
+    return m
+
+
+class _NoTruth(object):
+    def __bool__(self):
+        raise ValueError('The truth value of a Series is ambiguous.')
+
+
+class _BadLen(object):
+    def __len__(self):
+        return -1
+
+
 def directed_c06(chk):
     """schemas the corpus generator cannot produce (hand-written descriptors): elements of zero size, very deep nesting"""
     import sys
@@ -676,6 +700,10 @@ def directed_c06(chk):
         ('array of bytes', 'Plain', lambda: array.array('B', plain), True),
         ('text string', 'Plain', lambda: plain.decode('latin-1'), False), ('None', 'Plain', lambda: None, False), ('int', 'Plain', lambda: 7, False),
         ('list of ints', 'Plain', lambda: list(plain), False),
+        ('released memoryview (D182)', 'Plain', lambda: _released_view(plain), False),
+        ('closed mmap (D182)', 'Plain', lambda: _closed_mmap(plain), False),
+        ('object whose truth value raises (D182)', 'Plain', lambda: _NoTruth(), False),
+        ('object with a broken __len__ (D182)', 'Plain', lambda: _BadLen(), False),
         ('bytearray, schema with a bytes field', 'WithBytes', lambda: bytearray(plain + b'abcd'), True),
         ('memoryview, schema with a bytes field', 'WithBytes', lambda: memoryview(plain + b'abcd'), True),
     ]:
@@ -731,6 +759,15 @@ def run_c06(tier):
                     t0 = time.process_time()   # CPU time of this process: a loaded machine must not look like a slow decoder
                     m, dec = decode_impl(c, bs, e)
                     dt = time.process_time() - t0
+                    if dt > 1.0:
+                        # a collection of the interpreter's garbage collector over the millions of rows this run keeps is CPU
+                        # time of this process too: measure again, twice, right after a collection, and take the best
+                        import gc
+                        for _ in range(2):
+                            gc.collect()
+                            t0 = time.process_time()
+                            decode_impl(c, bs, e)
+                            dt = min(dt, time.process_time() - t0)
                     slow = max(slow, dt)
                     fix = None
                     if 'val' in dec:
